@@ -53,6 +53,14 @@ func (fc *FnCtx) calleeScope(ct *FuncContract, callee *ssa.Function, env, old *E
 	return sc
 }
 
+// scopePkgPath: the package whose contract file the expression comes from.
+func (sc *Scope) scopePkgPath() string {
+	if sc.pkg != nil {
+		return sc.pkg.Path()
+	}
+	return fnPkgPath(sc.fc.fn)
+}
+
 func (sc *Scope) fail(format string, args ...interface{}) {
 	sc.fc.fail("contract expression: "+format, args...)
 }
@@ -1212,7 +1220,7 @@ func (sc *Scope) trCall(x *ECall) (Term, types.Type) {
 		t, ty := arg(0)
 		return fc.box(ty, t), types.Universe.Lookup("error").Type()
 	}
-	if ct := fc.eng.Contracts[name]; ct != nil && ct.Assumed && ct.Flags["pure"] {
+	if ct := fc.eng.Assumed(sc.scopePkgPath(), name); ct != nil && ct.Flags["pure"] {
 		// assumed pure interface method: Iface.Method(receiver, args...)
 		rty := sc.ifaceMethodResult(name)
 		if rty == nil {
